@@ -27,6 +27,9 @@ CORPUS = [
                    {"arg": 10, "deps": [3]}]], "seed": 2, "kills": [None, None]},
     # D13 (known finding): the same call submitted again while the first copy is in flight
     {"sessions": [[{"arg": 1, "deps": []}, {"arg": 1, "deps": []}, {"arg": 10, "deps": [0]}]], "seed": 3, "kills": [None]},
+    # one call taking, in this order, a future still in flight and a future that finished long ago (no longer tracked by the loop)
+    {"sessions": [[{"arg": 1, "deps": [], "wait": True, "pause": 150}, {"arg": 10, "deps": []}, {"arg": 100, "deps": [1, 0]},
+                   {"arg": 1000, "deps": [1], "kwdep": 0}]], "seed": 5, "kills": [None]},
     # the same call submitted again after it finished
     {"sessions": [[{"arg": 1, "deps": [], "wait": True, "pause": 120}, {"arg": 1, "deps": []}]], "seed": 4, "kills": [None]},
 ]
@@ -38,6 +41,7 @@ RELEVANT = {"file_wrong_value", "file_lost_future", "file_loop_thread_dead", "fi
 def evaluate(ctx: Ctx, prop: str, hists, outs, relevant, known_region="D13"):
     m = ctx.model
     diffs, fails, validated, known = [], [], 0, 0
+    confirmations = [0]
     for h, o in zip(hists, outs):
         j = fe.judge(m, h, o)
         ncalls = [len(s) for s in h["sessions"]]
@@ -48,6 +52,26 @@ def evaluate(ctx: Ctx, prop: str, hists, outs, relevant, known_region="D13"):
         if any(h.get("kills") or []):
             ctx.count("hist.with_kill")
         rel = [x for x in j["oracles"] if x["oracle"] in relevant]
+        timing = [x for x in rel if x["oracle"] != "file_lost_future_duplicate"]
+        if timing and all(x["oracle"] in ("file_lost_future", "file_hang") for x in timing):
+            # decided by a time limit only: counts when it happens again, alone, with five times the limits (a loaded machine
+            # is slow); at most four such re-runs per check, further ones are not judged
+            if confirmations[0] < 4:
+                confirmations[0] += 1
+                h2 = json.loads(json.dumps(h))
+                h2["call_timeout"] = 5 * h.get("call_timeout", 12)
+                h2["timeout"] = 4 * h.get("timeout", 45)
+                o2 = fe.run_many([h2], jobs=1)[0]
+                j2 = fe.judge(m, h2, o2)
+                rel2 = [x for x in j2["oracles"] if x["oracle"] in relevant]
+                if not [x for x in rel2 if x["oracle"] != "file_lost_future_duplicate"]:
+                    ctx.count("timing_oracle_not_confirmed")
+                    rel = [x for x in rel if x["oracle"] == "file_lost_future_duplicate"]
+                else:
+                    h, o, j, rel = h2, o2, j2, rel2
+            else:
+                ctx.count("timing_oracle_unconfirmed_not_judged")
+                rel = [x for x in rel if x["oracle"] == "file_lost_future_duplicate"]
         dup = [x for x in rel if x["oracle"] == "file_lost_future_duplicate"]
         rest = [x for x in rel if x["oracle"] != "file_lost_future_duplicate"]
         if dup:
